@@ -1,5 +1,6 @@
 """C15 - response headers act as a case-insensitive map; cookies get separate lines; cookie attributes exact;
 URI-bearing helpers emit ASCII that decodes back."""
+import re
 PROP = 'C15'
 LEAN_MODULES = ['FalconModel.RespHeadersProofs', 'FalconModel.CookieOutProofs', 'FalconModel.RespPropsProofs']
 DRIVERS = ['hddriver', 'cwdriver', 'rpdriver']
@@ -132,6 +133,8 @@ ASSUMPTIONS = [
     'download filenames contain no control characters; Link titles are ASCII without double quote / backslash (non-ASCII titles go through title_star, as documented)',
     'cookie names are RFC 6265 tokens that are not attribute names reserved by http.cookies; every other name (incl. one containing a colon, fix 9cb24a9) must be rejected with KeyError',
     'a set_cookie call that raises (invalid same_site) may or may not leave its cookie behind; only cookies of successful calls are judged',
+    'order of Set-Cookie lines: judged per cookie NAME (the user agent of the oracle ignores Domain / Path scoping) when the last call on the name is set_cookie / unset_cookie, or when the name only occurs in raw lines; '
+    'a raw line appended AFTER a cookie-API call on the same name is not judged (falcon documents that API lines are emitted after the raw ones; the statement does not say who wins), except that WSGI and ASGI must agree',
     'unset_cookie is judged on: empty value, Expires in the past, no Max-Age, and the domain / path / samesite it was given; attributes inherited from an earlier set_cookie of the same name (Secure, HttpOnly, ...) are pinned upstream behaviour and not judged',
     'Cw theorems that read a line back assume Domain / Path (and the samesite given to unset_cookie) contain no ";" (RFC 6265 av-octets); the model itself and the correspondence cover such values too (they are emitted raw). '
     'max_age is an int, a str or a finite float; expires is a datetime whose tzinfo (if any) yields a whole-second utcoffset; the clock is after 1970. '
@@ -146,6 +149,9 @@ RULE = ('histories of 1..12 operations (set / append / delete / get / set_header
         'combinations above plus datetimes over years 1..9999 with second-granular offsets, overflow at both ends, leap days, max_age strings with sign / blanks / underscores / garbage, negative and huge '
         'floats, non-ASCII same_site, Domain/Path containing "; "), after every call the exact Set-Cookie values of _wsgi_headers() / _asgi_headers() (taken within one clock second) and every exception '
         'kind are compared with the Cw model; each set_cookie is repeated on a fresh response against the stateless setCookieLine. '
+        'Set-Cookie ORDER: in the histories and in the full-app cookie cases half of the raw append_header(Set-Cookie) lines carry a cookie name that set_cookie / unset_cookie are also called with '
+        '(value / Path / quoted value / Max-Age variants; raw before or after the API call, several raw lines per name); the Set-Cookie lines are read in the order handed to start_response / ASGI send by a '
+        'minimal RFC 6265 user agent, and for ASGI response objects the WSGI emission of the same object is compared line by line. '
         'URI cases: unicode / control-character targets, anchors, title* texts, extension relation types (blank, tab, NBSP, EM SPACE separated) and filenames (incl. leading dots, compatibility characters) through location, '
         'content_location, append_link (1..3 calls; all keyword arguments incl. empty lists, rejected crossorigin values), downloadable_as, viewable_as, plus etag / cache_control / vary / content_range / content_length / content_type / '
         'retry_after / accept_ranges with assignment of None and del; the exact emitted value (from _wsgi_headers() / _asgi_headers()) and every exception are compared with the Rp model, secure_filename and _is_ascii_encodable directly. '
@@ -362,6 +368,122 @@ def check_unset_line(line, name, kw):
     return None
 
 
+ORA_ORDER_NAME = ('Set-Cookie line order: a user agent processing the lines in the order handed to the server stores, per cookie name, what the last call on that name says '
+                  '(unset -> expired, set -> its value, raw lines alone -> the last one); WSGI and ASGI emit the same sequence')
+
+
+def cookie_dequote(coded):
+    """what a reader of RFC 6265 / RFC 2109 quoted cookie values makes of the text after `name=`: DQUOTEs stripped, backslash escapes
+    (octal `\\ooo`, `\\c`) resolved; an unquoted value is taken verbatim"""
+    if len(coded) < 2 or coded[0] != '"' or coded[-1] != '"':
+        return coded
+    body = coded[1:-1]; out = []; i = 0
+    while i < len(body):
+        ch = body[i]
+        if ch == '\\' and i + 3 < len(body) and body[i + 1:i + 4].isdigit() and all(c in '01234567' for c in body[i + 1:i + 4]):
+            out.append(chr(int(body[i + 1:i + 4], 8))); i += 4
+        elif ch == '\\' and i + 1 < len(body):
+            out.append(body[i + 1]); i += 2
+        else:
+            out.append(ch); i += 1
+    return ''.join(out)
+
+
+def user_agent(lines, now=None):
+    """A minimal RFC 6265 (section 5.3) user agent: the Set-Cookie lines of ONE response are processed in the order received; a later
+    line for the same cookie name replaces what an earlier one stored; a line whose Max-Age is <= 0 or whose Expires lies in the past
+    removes the cookie (Max-Age has precedence).  Returns {name: coded value} of what is stored afterwards."""
+    import email.utils
+    from datetime import datetime, timezone
+    now = now or datetime.now(timezone.utc)
+    jar = {}
+    for line in lines:
+        parts = line.split(';')
+        name, sep, val = parts[0].partition('=')
+        name = name.strip(); val = val.strip()
+        if not sep or not name:
+            continue
+        max_age = expires = None
+        for p in parts[1:]:
+            k, _, v = p.strip().partition('=')
+            k = k.strip().lower(); v = v.strip()
+            if k == 'max-age' and re.fullmatch(r'-?[0-9]+', v):
+                max_age = int(v)
+            elif k == 'expires':
+                try:
+                    when = email.utils.parsedate_to_datetime(v)
+                    expires = when.replace(tzinfo=timezone.utc) if when.tzinfo is None else when
+                except Exception:  # noqa
+                    pass
+        expired = (max_age <= 0) if max_age is not None else (expires is not None and expires <= now)
+        if expired:
+            jar.pop(name, None)
+        else:
+            jar[name] = val
+    return jar
+
+
+def cookie_order_verdict(calls, lines, stack):
+    """The order of the Set-Cookie lines is observable: what a user agent that processes them in order ends up storing under a cookie
+    name must be what the history of calls says.  `calls` = [(kind, name, value)] in call order with kind in raw / set / unset / failed
+    (`failed` = a set_cookie that raised: may or may not have left its cookie behind, the name is then not judged; value None for
+    set / raw = the call itself asks for an expired cookie: Max-Age <= 0, Expires in the past).
+    * the last call on the name is unset_cookie           -> nothing is stored (an unset cookie is expired - whatever raw or API line came before)
+    * the last call on the name is a successful set_cookie -> exactly its value is stored
+    * the name was only ever given in raw appended lines    -> the last such line decides
+    * a raw line appended AFTER an API call on the same name: falcon documents that the API lines are emitted after the raw ones; the
+      statement does not say who wins, so the name is not judged here (the cross-stack comparison still is)."""
+    jar = user_agent(lines)
+    per = {}
+    for kind, name, value in calls:
+        per.setdefault(name, []).append((kind, value))
+    for name, ops in per.items():
+        kinds = [k for k, _ in ops]
+        if 'failed' in kinds:
+            continue
+        last_kind, last_val = ops[-1]
+        if last_kind == 'raw' and any(k != 'raw' for k in kinds):
+            continue
+        have = jar.get(name)
+        if last_kind == 'unset' or last_val is None:
+            if have is not None:
+                return (f'{stack}: the last call on cookie {name!r} was {"unset_cookie" if last_kind == "unset" else last_kind + " of an already expired cookie (Max-Age <= 0 / Expires in the past)"}, but a user agent processing the Set-Cookie lines in order still stores '
+                        f'{name}={have!r} (calls on it: {kinds}); lines in server order: {lines!r}')
+        else:
+            if have is None:
+                return (f'{stack}: the last call on cookie {name!r} was {last_kind} with value {last_val!r}, but a user agent processing the Set-Cookie lines in order '
+                        f'stores nothing under that name (calls on it: {kinds}); lines in server order: {lines!r}')
+            if cookie_dequote(have) != last_val:
+                return (f'{stack}: the last call on cookie {name!r} was {last_kind} with value {last_val!r}, but a user agent processing the Set-Cookie lines in order '
+                        f'stores {name}={have!r} (calls on it: {kinds}); lines in server order: {lines!r}')
+    return None
+
+
+def raw_cookie_value(line):
+    """(name, value) of a raw `name=value; attrs` line as a user agent reads it (an expired raw line stores nothing: value None);
+    None for a line that is no cookie-pair at all"""
+    name, sep, _ = line.split(';')[0].partition('=')
+    if not sep or not name.strip():
+        return None
+    jar = user_agent([line])
+    v = jar.get(name.strip())
+    return name.strip(), (None if v is None else cookie_dequote(v))
+
+
+def set_cookie_value(value, kw):
+    """what set_cookie(name, value, **kw) asks a user agent to store: the value, or None when the call itself is an expiry
+    (Max-Age <= 0; without Max-Age an Expires in the past)"""
+    from datetime import datetime, timezone
+    if kw.get('max_age') is not None:
+        return None if int(float(kw['max_age'])) <= 0 else value
+    e = kw.get('expires')
+    if e is not None:
+        e = e.replace(tzinfo=timezone.utc) if e.tzinfo is None else e
+        if e <= datetime.now(timezone.utc):
+            return None
+    return value
+
+
 # ------------------------------------------------------------------ 1. operation histories: correspondence + map oracle + emission oracle
 
 _PLAIN = ['X-A', 'X-B', 'X-Long-Header-Name', 'Content-Type', 'Content-Length', 'Cache-Control', 'ETag', 'Vary', 'Location', 'Content-Location',
@@ -429,8 +551,10 @@ def _histories(ctx):
     ORA_EMIT = 'emitted list: each plain header once (ASGI names lower-case bytes), one Set-Cookie line per raw append and per cookie'
     ORA_ATTR = 'cookie attributes exact'
     ORA_UNSET = 'unset cookie expired'
+    ORA_ORDER = ORA_ORDER_NAME
 
     for ci in range(ctx.n(16000, 250000)):
+        calls = []          # cookie-related calls in call order: (raw | set | unset | failed, cookie name, value)
         asgi = rnd.random() < 0.5
         default_secure = rnd.random() < 0.6
         opts = ResponseOptions()
@@ -440,7 +564,7 @@ def _histories(ctx):
         raw = []            # raw Set-Cookie values appended
         jar = []            # [name, ('set'|'unset', kw)] in emission order
         hist = []
-        fail_map = fail_emit = fail_attr = fail_unset = None
+        fail_map = fail_emit = fail_attr = fail_unset = fail_order = None
         mutated = False
         sess.case({'asgi': asgi})
         sess.op('new', 'ok')
@@ -477,6 +601,10 @@ def _histories(ctx):
                     is_cookie = low == 'set-cookie'
                     if is_cookie and op == 'append':
                         v = rnd.choice(['r=1', 'raw=x; Path=/', 'r2=a b', 'k=v; Secure; HttpOnly'])
+                        if rnd.random() < 0.5:      # a raw line for a name the cookie API is also used with (e.g. copied from an upstream response)
+                            v = rnd.choice(['c1', 'c2', 'sid', 'gone']) + rnd.choice(['=rawv%d' % len(raw), '=rawv%d; Path=/' % len(raw), '="raw v%d"; HttpOnly' % len(raw),
+                                                                                     '=rawv%d; Max-Age=3600' % len(raw)])
+                            ctx.count('hist_raw_line_for_api_cookie_name')
                     if op != 'get' and rnd.random() < 0.05:
                         v = rnd.choice([5, 0, 3.5])      # non-str values are converted with str()
                     sv = str(v)
@@ -488,7 +616,9 @@ def _histories(ctx):
                             model[low] = sv; mutated = True
                         elif op == 'append':
                             resp.append_header(n, v); sess.op(f'append {H(n)} {H(sv)}', 'ok')
-                            if is_cookie: raw.append(sv)
+                            if is_cookie:
+                                raw.append(sv); rc = raw_cookie_value(sv)
+                                if rc: calls.append(('raw',) + rc)
                             else: model[low] = (model[low] + ', ' + sv) if low in model else sv
                             mutated = True
                         elif op == 'delete':
@@ -599,6 +729,7 @@ def _histories(ctx):
                     except KeyError:
                         ok = False
                         if legal: fail_attr = fail_attr or f'set_cookie({name!r}, {val!r}, {kw}) raised KeyError for a legal name'
+                    calls.append(('set', name, set_cookie_value(val, kw)) if ok else ('failed', name, None))
                     line = cookie_line_of(name)
                     if line is not None:
                         jar[:] = [e for e in jar if e[0] != name] + [[name, ('set', kw) if ok else ('failed', kw)]]
@@ -613,6 +744,7 @@ def _histories(ctx):
                     if rnd.random() < 0.3: kw['path'] = rnd.choice(['/', '/a'])
                     hist.append(['unset_cookie', name, kw])
                     resp.unset_cookie(name, **kw)
+                    calls.append(('unset', name, None))
                     line = cookie_line_of(name)
                     if line is None:
                         fail_emit = fail_emit or f'unset_cookie({name!r}) emitted no Set-Cookie line'
@@ -665,6 +797,7 @@ def _histories(ctx):
             elif dict((k.lower(), v) for k, v in plain) != model:
                 fail_emit = fail_emit or f'{stack}: emitted plain headers {plain!r} != map {model!r}'
             sc = [v for k, v in out if k.lower() == 'set-cookie']
+            fail_order = fail_order or cookie_order_verdict(calls, sc, stack)
             ok_jar = [e for e in jar if e[1][0] != 'failed']
             n_failed = len(jar) - len(ok_jar)
             if not (len(raw) + len(ok_jar) <= len(sc) <= len(raw) + len(ok_jar) + n_failed):
@@ -688,9 +821,18 @@ def _histories(ctx):
                         else:
                             w = check_unset_line(mine[0], name, kw)
                             if w: fail_unset = fail_unset or w + f' [{mine[0]}]'
+        if 'asgi' in outs and 'wsgi' in outs and not fail_order:
+            seq = {st: [norm_cookie_line(v) for k, v in o_ if k.lower() == 'set-cookie'] for st, o_ in outs.items()}
+            if seq['asgi'] != seq['wsgi']:
+                fail_order = (f'the same response object hands its Set-Cookie lines to an ASGI server in a different order than to a WSGI server: '
+                              f'asgi {seq["asgi"]!r}, wsgi {seq["wsgi"]!r}')
         case = {'stack': 'asgi' if asgi else 'wsgi', 'secure_cookies_by_default': default_secure, 'history': hist}
         ctx.oracle(ORA_MAP, fail_map is None, fail_map, case)
         ctx.oracle(ORA_EMIT, fail_emit is None, fail_emit, case)
+        if calls:
+            ctx.oracle(ORA_ORDER, fail_order is None, fail_order, case)
+            names_raw = {n for k, n, _ in calls if k == 'raw'}; names_api = {n for k, n, _ in calls if k != 'raw'}
+            if names_raw & names_api: ctx.count('hist_raw_and_api_calls_on_one_cookie_name' + ('_asgi' if asgi else '_wsgi'))
         if any(h[0] == 'set_cookie' for h in hist):
             ctx.oracle(ORA_ATTR, fail_attr is None, fail_attr, case)
         if any(h[0] == 'unset_cookie' for h in hist):
@@ -785,8 +927,10 @@ def _cookies(ctx):
                     if rnd.random() < 0.3: kw['domain'] = 'example.com'
                     if rnd.random() < 0.3: kw['path'] = rnd.choice(['/', '/a'])
                     ops.append(['unset', rnd.choice(NAMES[:7]), kw])
-                else:
+                elif rnd.random() < 0.5:
                     ops.append(['raw', rand_case(rnd, 'set-cookie'), rnd.choice(['r=1', 'raw=x; Path=/', 'r2="a b"'])])
+                else:       # a raw line for a name the cookie API is also used with (a proxied upstream cookie that is then replaced / unset)
+                    ops.append(['raw', rand_case(rnd, 'set-cookie'), rnd.choice(NAMES[:7]) + rnd.choice(['=rawv%d', '=rawv%d; Path=/', '="raw v%d"; HttpOnly', '=rawv%d; Max-Age=60']) % len(ops)])
             script['ops'] = ops; script['errors'] = []
             if stack == 'wsgi':
                 status, hdrs, _ = wsgi_call(app, 'GET', b'/c')
@@ -843,6 +987,16 @@ def _cookies(ctx):
                     w = check_unset_line(mine[0], name, op[2])
                     if w: fail_unset = fail_unset or w + f' [{mine[0]}]'
             ctx.oracle(ORA_LINES, fail_lines is None, fail_lines, case)
+            calls = []
+            for op, err in zip(ops, errs):
+                if op[0] == 'raw':
+                    rc = raw_cookie_value(op[2])
+                    if rc: calls.append(('raw',) + rc)
+                elif op[0] == 'set': calls.append(('failed', op[1], None) if err else ('set', op[1], set_cookie_value(op[2], op[3])))
+                else: calls.append(('failed' if err else 'unset', op[1], None))
+            fail_order = cookie_order_verdict(calls, sc, stack) if status == 200 and len(errs) == len(ops) else None
+            ctx.oracle(ORA_ORDER_NAME, fail_order is None, fail_order, case)
+            if {n for k, n, _ in calls if k == 'raw'} & {n for k, n, _ in calls if k != 'raw'}: ctx.count('cookie_raw_and_api_calls_on_one_name_' + stack)
             if any(o[0] == 'set' for o in ops):
                 ctx.oracle(ORA_ATTR, fail_attr is None, fail_attr, case)
             if any(o[0] == 'unset' for o in ops):
